@@ -3,7 +3,7 @@
 Scope
 -----
 filter_hypergraph (filters/metadata_filters.py).  Metadata are drawn from two attributes x three values
-("color" in r/g/b, "kind" in 1/2/3), each attribute possibly missing (16 metadata dicts); criteria are all 81
+("color" in r/g/"" and "kind" in 1/2/0: one falsy value each), each attribute possibly missing (16 metadata dicts); criteria are all 81
 dictionaries {attribute -> sublist of its values (the empty list included)} over them, plus None (82 per side).
 
 * A (structures exhaustive): every Hypergraph on nodes 0..n-1, n <= 4, with <= 3 hyperedges of size 1..4 (quick:
@@ -179,7 +179,7 @@ def _js(x):
 
 
 # =============================================================================================== filter_hypergraph
-COLORS, KINDS = ["r", "g", "b"], [1, 2, 3]
+COLORS, KINDS = ["r", "g", ""], [1, 2, 0]      # one falsy value per attribute: a value is matched by membership, not by truthiness
 MDS = [{k: v for k, v in (("color", c), ("kind", d)) if v is not None} for c in [None] + COLORS for d in [None] + KINDS]
 
 
@@ -196,8 +196,8 @@ def all_criteria():
 
 
 CRITERIA = [None] + all_criteria()
-FAMILY = [None, {}, {"color": ["r"]}, {"color": ["r", "g"]}, {"kind": [2]}, {"color": ["g", "b"], "kind": [1, 3]},
-          {"kind": []}, {"color": ["r", "g", "b"], "kind": [3]}]
+FAMILY = [None, {}, {"color": ["r"]}, {"color": ["r", "g"]}, {"kind": [2]}, {"color": ["g", ""], "kind": [1, 0]},
+          {"kind": []}, {"color": ["r", "g", ""], "kind": [0]}]
 
 
 # spec = dict(cls, weighted, nodes=[[node, metadata]], edges=[[edge, weight, metadata]])
